@@ -15,7 +15,7 @@ use pico::{Database, SourceId};
 use prelude::Postfix;
 
 use crate::{
-    read_files::{read_file, read_files_in_folder},
+    read_files::{is_source_file_path, read_file, read_files_in_folder},
     watch::{ChangedFileKind, SourceEventKind, SourceFileEvent},
     write_artifacts::unable_to_do_something_at_path_diagnostic,
 };
@@ -145,9 +145,10 @@ fn handle_update_source_file<TCompilationProfile: CompilationProfile>(
                 db.get_current_working_directory(),
                 source_path,
             );
-            if db.remove_iso_literal(source_file_path).is_some() {
-                create_or_update_iso_literals(db, target_path)?
-            }
+            // The source may not have been a file we read (e.g. `a.ts.bak` -> `a.ts`), and the
+            // target may not be one (e.g. `a.ts` -> `a.ts.bak`).
+            db.remove_iso_literal(source_file_path);
+            create_or_update_iso_literals(db, target_path)?
         }
         SourceEventKind::Remove(path) => {
             let interned_file_path = relative_path_from_absolute_and_working_directory(
@@ -164,6 +165,20 @@ fn create_or_update_iso_literals<TCompilationProfile: CompilationProfile>(
     db: &mut IsographDatabase<TCompilationProfile>,
     path: &Path,
 ) -> LocationFreeDiagnosticResult<()> {
+    if !is_source_file_path(path) {
+        // Not a file that a batch compile reads (wrong extension, or within an __isograph
+        // folder), so it must not contribute iso literals in watch mode, either.
+        return Ok(());
+    }
+    if !path.is_file() {
+        // The file was deleted or replaced by a folder after the event was recorded.
+        let relative_path = relative_path_from_absolute_and_working_directory(
+            db.get_current_working_directory(),
+            &path.to_path_buf(),
+        );
+        db.remove_iso_literal(relative_path);
+        return Ok(());
+    }
     let (relative_path, content) =
         // TODO this function should live here
         read_file(path.to_path_buf(), db.get_current_working_directory())?;
@@ -177,11 +192,18 @@ fn handle_update_source_folder<TCompilationProfile: CompilationProfile>(
 ) -> LocationFreeDiagnosticResult<()> {
     match event_kind {
         SourceEventKind::CreateOrModify(folder) => {
-            read_iso_literals_from_folder(db, folder)?;
+            if folder.is_dir() {
+                read_iso_literals_from_folder(db, folder)?;
+            } else {
+                // The folder was deleted after the event was recorded.
+                remove_iso_literals_from_folder(db, folder);
+            }
         }
         SourceEventKind::Rename((source_path, target_path)) => {
             remove_iso_literals_from_folder(db, source_path);
-            read_iso_literals_from_folder(db, target_path)?;
+            if target_path.is_dir() {
+                read_iso_literals_from_folder(db, target_path)?;
+            }
         }
         SourceEventKind::Remove(path) => {
             remove_iso_literals_from_folder(db, path);
